@@ -93,6 +93,21 @@ func famTotal(g *Gen) {
 	ds := g.shape(0, 5, 3)
 	a := g.leaf(ds, g.chance(0.5))
 	b := g.leaf(g.shape(0, 5, 3), g.chance(0.5))
+	if g.chance(0.2) {
+		// totality over a HISTORY: back-propagate, turn an interior tensor into a fresh leaf (tracked or not),
+		// back-propagate again from the same root, then from the interior tensor: every call returns, none panics
+		g.tag("backprop-reset-backprop")
+		l := g.leafDistinct([]int{2}, true, -1, 1)
+		h, _ := g.do(Cmd{Op: OpScale, T: l, A: Dec{2, 0}})
+		h2, _ := g.do(Cmd{Op: OpMath, K: 7, T: h})
+		out, _ := g.do(Cmd{Op: OpBin, K: 10, T: h2, U: T(h)})
+		g.do(Cmd{Op: OpBackprop, U: T(out)})
+		g.do(Cmd{Op: OpReset, T: g.pick(h, h2), Flag: g.chance(0.5)})
+		g.do(Cmd{Op: OpBackprop, U: T(out)})
+		g.do(Cmd{Op: OpGradOf, T: l})
+		g.do(Cmd{Op: OpBackprop, U: T(h)})
+		g.do(Cmd{Op: OpBackprop, U: nil})
+	}
 	n := 10 + g.intn(10)
 	for i := 0; i < n; i++ {
 		x := a
